@@ -7,6 +7,11 @@ LEVEL = "other"
 
 # crossings the statement names explicitly (each must compile, warning-free)
 DEDICATED = [
+    # default value expressions that rely on the explicit bound written next to them (every level a bound can be written at)
+    ("default_value_uses_field_bound", "pub trait Make { fn make() -> Self; }\n#[derive_ex::derive_ex(Default)]\npub struct X<T>(#[default(T::make(), bound(T: Make))] pub T, pub u8);"),
+    ("default_value_uses_field_derive_ex_bound", "pub trait Make { fn make() -> Self; }\n#[derive_ex::derive_ex(Default, Clone)]\npub struct X<T> { #[default(T::make())] #[derive_ex(Default(bound(T: Make)))] pub a: T, pub b: Option<T> }"),
+    ("default_value_uses_variant_bound", "pub trait Make { fn make() -> Self; }\n#[derive(derive_ex::Ex)]\n#[derive_ex(Default)]\npub enum X<T> { A, #[default] #[derive_ex(Default(bound(T: Make)))] B(#[default(T::make())] T, #[default(Some(T::make()), bound(T: Make, ..))] Option<T>) }"),
+    ("default_value_uses_type_bound", "pub trait Make { fn make() -> Self; }\n#[derive_ex::derive_ex(Default(bound(T: Make)))]\npub struct X<T>(#[default(T::make())] pub T);"),
     ("by_first", "#[derive_ex::derive_ex(PartialEq, Eq)]\npub struct X(#[eq(by = crate::support::gby_eq)] pub u8, pub u8, pub u8);"),
     ("by_middle", "#[derive_ex::derive_ex(PartialEq, Eq, PartialOrd, Ord)]\npub struct X { pub a: u8, #[ord(by = crate::support::gby_ord)] pub b: u8, pub c: u8 }"),
     ("by_last", "#[derive_ex::derive_ex(PartialEq)]\npub enum X { A(u8, #[partial_eq(by = crate::support::gby_partial_eq)] u8), B }"),
